@@ -134,7 +134,11 @@ theorem C08_step (s : BState) (c : Call) (h : Inv s) : Inv (step s c) := by
     · exact h
     · exact h
   case procEdgeEnd => exact h
-  case procSelect name => exact inv_addSelectSymbol h _ _
+  case procSelect name =>
+    simp only [step]
+    cases s.currentEdge with
+    | none => exact h
+    | some p => exact inv_addSelectSymbol h _ _
   case procGuard => exact inv_setEdge h _ (fun _ _ => ⟨rfl, rfl, rfl, rfl, rfl⟩)
   case procSync =>
     simp only [step]
